@@ -51,9 +51,20 @@ def check_split(rep, repo, name, with_index):
     rep.ev("SPLIT-seed-first", draws[0], ok_seed and seeds[0].seq < draws[0].seq, "the seed call must precede the draw")
     perm = draws[0].value
     rets = [e for e in w.events if e.kind == "return" and e.fn is w.entry]
-    if len(rets) != 1 or rets[0].value[0] != "tuple":
-        raise AnalysisError(f"{name}: expected a single tuple return")
-    out = rets[0].value[1]
+    if not rets or rets[-1].value[0] != "tuple":
+        raise AnalysisError(f"{name}: expected a tuple return")
+    # special-case returns (early exits) must obey the same rules as the main one: every returned array is the same
+    # kind of slice of the ONE permutation, otherwise rows, labels and indexes of a sample come apart
+    for extra in rets[:-1]:
+        v = extra.value
+        same = v[0] == "tuple" and len(v[1]) == len(rets[-1].value[1])
+        if same:
+            uses = {any(u == perm for u in subterms(a)) for a in v[1]}
+            same = len(uses) == 1  # all outputs through the permutation, or none of them
+        rep.ev("SPLIT-special-case", extra, same,
+               "an early return hands back some outputs without the permutation and others with it: the i-th row, label "
+               "and index no longer belong to the same sample" if not same else "")
+    out = rets[-1].value[1]
     n_out = 6 if with_index else 4
     rep.fn("SPLIT-arity", fi, f"returns {n_out} arrays", len(out) == n_out, f"returns {len(out)} values")
     if len(out) != n_out:
@@ -99,7 +110,7 @@ def check_split(rep, repo, name, with_index):
     forms = [("call", ("builtin", "int"), (("bin", "*", *sorted([s, pct], key=repr)),), ()) for s in sizes]
     rep.fn("SPLIT-bound", fi, "one bound int(len(X) * percentage) separates the two parts", halt_ok and h in forms,
            f"slice bounds used: {[show(x) for x in halts]}")
-    return rets[0].value
+    return rets[-1].value
 
 
 def check_merge(rep, repo):
